@@ -132,15 +132,16 @@ func VerifC20_Atomic() {
 	spare := verifParam("spare")
 	t := &NonCodingTranscript{ID: "t"}
 	foreign := &NonCodingTranscript{ID: "u"}
-	// an accepted set: exon i occupies [3i, 3i+2)
-	base := make(Exons, 0, k+spare)
+	// an accepted set: exon i occupies [3i, 3i+2), held in a slice with `spare` unused capacity
+	var acc Exons
 	var err error
 	for i := 0; i < k; i++ {
-		base, err = base.Add(Exon{Transcript: t, Offset: 3 * i, Length: 2})
+		acc, err = acc.Add(Exon{Transcript: t, Offset: 3 * i, Length: 2})
 		verifAssert(err == nil, "setup-accepted")
 	}
-	verifAssert(len(base) == k, "setup-size")
-	old := base
+	verifAssert(len(acc) == k, "setup-size")
+	old := make(Exons, k, k+spare)
+	copy(old, acc)
 	snap := make([]Exon, k)
 	copy(snap, old)
 	verifAssert(t.SetExons(old...) == nil, "setup-transcript-accepts")
